@@ -29,6 +29,35 @@ def parseParts (l : Line) : Nat → Nat → Option (List (SepPart Rat))
       let r ← parseParts l (i + 1) k
       some (⟨w, f, x, d⟩ :: r)
 
+/-- Trees over the new leaves (`FnX`), prefix tokens: `xkl|g` `xklcc|g` `xl2` `xlscal|s|F`
+`xrscal|s|F` `xsum|F|G` `xssum|c|F` `xtrans|t|F` `xqp|a|u|c|F`; anything else is a whole `Fn` tree. -/
+def parseFnX (n : Nat) : Nat → List String → Option (FnX (List Rat) Rat × List String)
+  | 0, _ => none
+  | fuel + 1, toks =>
+    let vec (s : String) : Option (List Rat) := do
+      let v ← parseRatList s
+      if v.length = n then some v else none
+    match toks with
+    | "xkl" :: g :: r => do let g ← vec g; some (.kl g, r)
+    | "xklcc" :: g :: r => do let g ← vec g; some (.klcc g, r)
+    | "xl2" :: r => some (.l2, r)
+    | "xlscal" :: s :: r => do
+        let s ← parseRat s; let (f, r') ← parseFnX n fuel r; some (.lscal s f, r')
+    | "xrscal" :: s :: r => do
+        let s ← parseRat s; let (f, r') ← parseFnX n fuel r; some (.rscal f s, r')
+    | "xsum" :: r => do
+        let (f, r1) ← parseFnX n fuel r; let (g, r2) ← parseFnX n fuel r1; some (.sum f g, r2)
+    | "xssum" :: c :: r => do
+        let c ← parseRat c; let (f, r') ← parseFnX n fuel r; some (.ssum f c, r')
+    | "xtrans" :: t :: r => do
+        let t ← vec t; let (f, r') ← parseFnX n fuel r; some (.trans f t, r')
+    | "xqp" :: a :: u :: c :: r => do
+        let a ← parseRat a; let u ← vec u; let c ← parseRat c
+        let (f, r') ← parseFnX n fuel r; some (.qp f a u c, r')
+    | _ => do
+        let (t, r) ← parseFn n false 64 toks
+        some (.base t, r)
+
 /-- Round 4 ops (leaves outside the expression language, `Model/FunctionalsLeaves.lean`):
     `klgrad kind=kl|klcc g=<prior> x=<vec>`       → `ok g=<vec>` | `nonfinite`
     `kldom kind=kl|klcc x=<vec>`                 → `ok inf=0|1`   (is `_call` = inf?)
@@ -69,6 +98,27 @@ def handleLeaves (l : Line) : Option String := do
       let v := l2Val ratSqrt w x
       let ex := if v * v = innerW w x x then 1 else 0
       some s!"ok v={showRat v} g={showRatList (l2Grad ratSqrt w x)} exact={ex}"
+  | "xval" | "xgrad" | "xderiv" => do
+      -- `xval|xgrad|xderiv f=<FnX tokens> w=<weights> x=<vec> [d=<vec>]`
+      let w ← l.rats? "w"
+      if w.isEmpty then none
+      let fs ← l.get? "f"
+      let (f, rest) ← parseFnX w.length 64 (fs.splitOn "|")
+      if !rest.isEmpty then none
+      let x ← vecArg l "x" w.length
+      let o := listOps w
+      let lo := listLeafOps ratSqrt w
+      match l.op with
+      | "xval" => some (if f.hasLog then "ok v=log" else s!"ok v={showRat (f.value o lo x)}")
+      | "xgrad" =>
+          if !f.hasGrad then some "nograd" else
+          if !f.gradOk o lo x then some "nonfinite" else
+          some s!"ok g={showRatList (f.grad o lo x)}"
+      | _ => do
+          let d ← vecArg l "d" w.length
+          if !f.hasGrad then some "nograd" else
+          if !f.gradOk o lo x then some "nonfinite" else
+          some s!"ok v={showRat (f.deriv o lo x d)}"
   | "sep" => do
       let k ← l.nat? "k"
       if k = 0 then none
@@ -84,7 +134,7 @@ def handleLeaves (l : Line) : Option String := do
     `deriv f=… w=… x=… d=…`                      → `ok v=<rat>` (= d.inner(grad f(x)))
     `lip f=… w=…`                                → `nan` | `inf` | `fin r=… roots=c:q;…` -/
 def handle (l : Line) : Option String := do
-  if l.op = "klgrad" || l.op = "kldom" || l.op = "box" || l.op = "sep" || l.op = "l2" then handleLeaves l else
+  if l.op = "klgrad" || l.op = "kldom" || l.op = "box" || l.op = "sep" || l.op = "l2" || l.op = "xval" || l.op = "xgrad" || l.op = "xderiv" then handleLeaves l else
   let (o, f, n) ← parseCase l false
   match l.op with
   | "val" => do
